@@ -146,7 +146,10 @@ def ensure_makefile():
 def make(targets, timeout=900):
     """Full .vo build of the given targets (never -vos). Caller holds CoqLock."""
     ensure_makefile()
-    return sh(["make", "-j16", "--no-print-directory"] + list(targets), timeout, cwd=COQ)
+    targets = list(targets)
+    if "Common/Corr.vo" not in targets:          # every correspondence shard imports it
+        targets.append("Common/Corr.vo")
+    return sh(["make", "-j16", "--no-print-directory"] + targets, timeout, cwd=COQ)
 
 
 def coqc(path, timeout=300, cwd=None, extra=()):
@@ -380,6 +383,14 @@ def finish(ctx, rep, known_reproduced=()):
             real.append(v)
     for sig in known_reproduced:
         hit.setdefault(sig, 0)
+    # fail closed: an obligation that did not check is never hidden by a known finding or by a
+    # harness that forgot to report it
+    failed_ob = [n for n, ok_ in rep.obligations if not ok_]
+    if failed_ob and not real:
+        real.append(Violation("broken:" + failed_ob[0],
+                              f"{len(failed_ob)} obligation(s) no longer check ({', '.join(failed_ob[:8])}) and the search found no failing input",
+                              {"obligations": failed_ob[:50], "detail": str(rep.extra.get("shard_errors", rep.extra.get("make_log_tail", "")))[-2000:]},
+                              True))
     for sig in hit:
         print(f"KNOWN-FINDING: property={pid} {known_sigs[sig]['what']} [{sig}]")
     seen = set()
@@ -431,6 +442,8 @@ def finish(ctx, rep, known_reproduced=()):
 def broken_obligation(rep, name, detail, found_inputs: bool):
     """A proof obligation / correspondence shard no longer checks and the search found no
     concrete failing input."""
+    known_sigs = {k["signature"] for k in load_known() if k.get("status") == "known"}
+    found_inputs = found_inputs and any(v.sig not in known_sigs and not v.no_input for v in rep.violations)
     if not found_inputs:
         rep.violate(f"broken:{name}", f"{name} no longer checks and the search found no failing input: {detail}",
                     {"obligation": name, "detail": detail[-2000:]}, no_input=True)
